@@ -119,6 +119,39 @@ def r03f(F):
 	gs = [g for g in guards_in(F, fn) if 'timer_ticks_without_htlcs' in g.text()]
 	ok = any((g.nf[1], g.nf[2]) in (('Gt', c), ('Ge', c + 1), ('Le', c), ('Lt', c + 1)) for g in gs)
 	out.append(Result('03.f', ok, ('ok:' if ok else 'shape:') + 'idempotency-timeout', 'a fulfilled entry is forgotten only after timer_ticks_without_htlcs exceeds IDEMPOTENCY_TIMEOUT_TICKS (%d): %s' % (c, [g.text() for g in gs]), max(1, len(gs)), where=F.where(F.fn(fn))))
+	# ... and the idle ticks are only counted once no HTLC of the payment is outstanding: the flag guarding the tick increment starts as
+	# session_privs.is_empty() and can only be lowered to false afterwards (pending events)
+	okg, seen, n_inc = False, [], 0
+	for n in F.family(fn):
+		cu = F.func(n)
+		cex = Expr(cu)
+		for bi, si, st in cu.stmts():
+			rv = st[2]
+			if bi in cu.reach([0]) and rv[0] in ('bin', 'cbin') and rv[1].startswith('Add') and 'timer_ticks_without_htlcs' in expr_str(cex.of_rvalue(rv)):
+				n_inc += 1
+				conds = control_conds(cu, bi)
+				if not conds:
+					continue
+				sb = conds[-1][0]
+				op = cu.blocks[sb]['t'][2]
+				if op[0] not in ('c', 'm') or len(op[1]) != 1:
+					seen.append('guard is not a flag: %s' % conds[-1][1][-40:])
+					continue
+				L = op[1][0]
+				d1 = cu.defs.get(L, [])
+				if len(d1) == 1 and d1[0][3][0] == 'use' and d1[0][3][1][0] in ('c', 'm') and len(d1[0][3][1][1]) == 1:
+					L = d1[0][3][1][1][0]
+				kinds = []
+				for dbi, dsi, dpl, drv in cu.defs.get(L, []):
+					if drv[0] == 'use' and drv[1][0] == 'k' and drv[1][1].get('ty') == 'bool' and not drv[1][1].get('v'):
+						kinds.append('false')
+					elif drv[0] == 'call' and norm(drv[1].get('f') or '').endswith('::is_empty') and 'session_privs' in leaf_key(cex.of_operand(drv[1]['args'][0])):
+						kinds.append('session_privs.is_empty()')
+					else:
+						kinds.append('other')
+				seen.append(kinds)
+				okg = 'session_privs.is_empty()' in kinds and 'other' not in kinds
+	out.append(Result('03.f', okg and n_inc >= 1, ('ok:' if okg and n_inc >= 1 else 'early:') + 'idle-ticks-only-without-htlcs', 'remove_stale_payments counts idle ticks of a fulfilled payment only while session_privs is empty (the guarding flag is assigned %s)%s' % (seen, '' if okg else ' - a fulfilled payment whose HTLC is still pending would be forgotten after the timeout; after a restart it is rebuilt from the monitor as retryable and reported failed although PaymentSent was delivered'), n_inc, where=F.where(F.fn(fn))))
 	return out
 
 def r03g(F):
@@ -320,6 +353,34 @@ def r03m(F):
 	out += P1_who_may_call(F, '03.m', [fn], ['lightning::ln::channelmanager::ChannelManager::compute_inflight_htlcs', 'lightning::ln::channelmanager::ChannelManager::from_channel_manager_data'], floor=2)
 	return out
 
+def r03n(F, rule='03.n'):
+	"""a counterparty-commitment update applied after the funding was spent fails only HTLCs that are in NO commitment the monitor already knew:
+	the known-source test consults the previous counterparty commitment and both holder commitments, and every fail-back sits on its false edge"""
+	out = []
+	fn = 'lightning::chain::channelmonitor::ChannelMonitorImpl::fail_htlcs_from_update_after_funding_spend'
+	fam = F.family(fn)
+	reads = {}
+	for k, v in F.fieldacc.items():
+		if 'channelmonitor::FundingScope' in k or 'channelmonitor::ChannelMonitorImpl' in k:
+			for r in v:
+				if r[0] in fam:
+					reads.setdefault(k.rsplit('.', 1)[-1], set()).add(r[0])
+	want = ['prev_counterparty_commitment_txid', 'counterparty_claimable_outpoints', 'current_holder_commitment_tx', 'prev_holder_commitment_tx', 'current_holder_htlc_data', 'prev_holder_htlc_data']
+	miss = [w for w in want if w not in reads]
+	ok = not miss
+	out.append(Result(rule, ok, ('ok:' if ok else 'forgotten-commitment:') + 'known-source-test-covers-all-commitments', 'fail_htlcs_from_update_after_funding_spend consults the previous counterparty commitment and the current / previous holder commitment before calling an HTLC new%s' % ('' if ok else ' - it no longer reads %s: an HTLC that lives only in that commitment is failed back (PaymentFailed) while its output is still claimable on chain' % miss), len(want), where=F.where(fn)))
+	fu = F.func(fn)
+	# the closure deciding "known" is called in the loop; HTLCUpdate constructions / pushes are on its false edge
+	clos = [n for n in fam if n != F.fn(fn) and any(w in reads and n in reads[w] for w in ('prev_counterparty_commitment_txid', 'current_holder_commitment_tx'))]
+	calls = [b for b, ci in fu.calls() if norm(ci.get('f') or ci.get('t') or '') in clos]
+	acts = {b for b, si in sites_construct(fu, 'HTLCUpdate', 'HTLCUpdate')} | {b for b, si in sites_construct(fu, 'OnchainEvent', 'HTLCUpdate')}
+	if not calls or not acts:
+		out.append(Result(rule, False, 'anchor:known-source-call', 'fail_htlcs_from_update_after_funding_spend: the call of the known-source test / the fail-back constructions were not found (%d / %d)' % (len(calls), len(acts)), where=F.where(fn)))
+	else:
+		ds = call_decisions(fu, calls, 'bool')
+		out += P4_guarded(F, rule, fu, acts, ds, False, 'HTLC source is not in any known commitment', key='fail-back-only-unknown-sources')
+	return out
+
 RULES = [
 	('03.a', 'terminal events are constructed only at the frozen sites; claim/fail are entered only from the manager funnels', r03a),
 	('03.b', 'PaymentSent only when not yet fulfilled, then mark_fulfilled; hash = SHA256(same preimage)', r03b),
@@ -332,5 +393,6 @@ RULES = [
 	('03.k', 'the payment-complete monitor release rides on the last (terminal) event pushed by fail_htlc', r03k),
 	('03.l', 'restart-time replay of on-chain failures waits for the confirmation threshold', r03l),
 	('03.m', 'stale-manager restart fails back every outbound HTLC the channel holds (inflight_htlc_sources unfiltered)', r03m),
+	('03.n', 'late counterparty-commitment update: only HTLCs in no known commitment are failed back', r03n),
 	('03.j', 'failures / forwards / finalized claims parked behind a monitor update are all returned when it completes, at every exit', r03j),
 ]
